@@ -566,6 +566,9 @@ func init() {
 			checkLiteralFidelity(r, NewGA(prog, g.Tab)) // the literal compared is the text the quotes enclose, escapes decoded
 			r.importing = "C15"
 			checkEngineInvariants(r, prog, "c15") // … whatever characters it holds: a validly encoded U+FFFD is a character like any other
+			checkNumberLiteral(r, NewGA(prog, g.Tab), "c02") // a numeral with any digits is a numeral: `F == 1.05` reaches the coercion
+			r.importing = "C10"
+			checkRecoverDiscipline(r, prog, "c10") // "bad literals are errors": an error the literal's action recorded is the error of the parse
 		}
 		r.importing = ""
 		r.Technique = "sibling-table extraction by abstract execution per reflect.Kind (kind→coercion, kind→comparator) compared with a spec table transcribed from the statement; constant-argument and single-call checks on the strconv wrappers; conversion census (no integer/float detour); path analysis of coercion-error propagation; event-order analysis of the json.Number narrowing"
